@@ -30,10 +30,12 @@ impl WarmUpCalculator {
         let threshold = rule.threshold;
         let warm_up_period = rule.warm_up_period_sec as f64;
 
-        let cold_factor_plus = (cold_factor + 1) as f64;
-        let cold_factor_minus = (cold_factor - 1) as f64;
+        let cold_factor_plus = cold_factor as f64 + 1.0;
+        let cold_factor_minus = cold_factor as f64 - 1.0;
         let warning_token = (warm_up_period * threshold / cold_factor_minus) as u64;
-        let max_token = warning_token + 2 * (warm_up_period * threshold / cold_factor_plus) as u64;
+        // float-to-int casts saturate, so huge or non-finite thresholds must not overflow here
+        let max_token = warning_token
+            .saturating_add(((warm_up_period * threshold / cold_factor_plus) as u64).saturating_mul(2));
         let slope = cold_factor_minus / threshold / (max_token - warning_token) as f64;
 
         WarmUpCalculator {
@@ -85,8 +87,8 @@ impl WarmUpCalculator {
         if old_value < self.warning_token
             || pass_qps < (self.threshold / self.cold_factor as f64).floor()
         {
-            new_value =
-                old_value + ((curr_time - last_time) as f64 * self.threshold / 1000.0) as u64;
+            new_value = old_value
+                .saturating_add(((curr_time - last_time) as f64 * self.threshold / 1000.0) as u64);
         }
 
         std::cmp::min(new_value, self.max_token)
